@@ -8,15 +8,24 @@ GoIter — the cursor functions of `parsed_json.go`, as printed by the translato
 For every `pj`, every iterator `i` whose view is inside the tape (`i.lim ≤ pj.tape.size`) and every
 `fuel ≥ fuelFor i = i.lim + 8` the interpreter neither gets stuck nor runs out of fuel, and
 
-  * `peekNextTag_sim`, `peekNext_sim`          — `PeekNextTag`, `PeekNext` are `Iter.peekNextTag`, `Iter.peekNext`;
+  * `peekNextTag_sim`, `peekNext_sim`   — `PeekNextTag`, `PeekNext` ARE `Iter.peekNextTag`, `Iter.peekNext`.
   * `advanceG_sim`, `advanceIntoG_sim`, `advanceIterG_sim`
-        — `Advance`, `AdvanceInto`, `AdvanceIter` are `advanceG`, `advanceIntoG`, `advanceIterG` (GoIterLemmas):
+        — `Advance`, `AdvanceInto`, `AdvanceIter` ARE `advanceG`, `advanceIntoG`, `advanceIterG` (GoIterLemmas):
           the hand model with the *whole* iterator threaded through the NOP-skipping loop.  No extra hypothesis.
   * `advance_sim`, `advanceInto_sim`, `advanceIter_sim`
-        — the same against the hand model itself, under `DeadCurAgrees` resp. `EndAtStart`, the exact conditions
-          under which the hand model's result is what Go computes; without them `advance_rel_G`,
-          `advanceInto_rel_G` say how far apart the two can be.
+        — the same against the hand model itself, under `DeadCurAgrees` resp. `EndAtStart`: exactly the conditions
+          under which the hand model's result is the state Go computes.  Without them `advance_rel_G`,
+          `advanceInto_rel_G` (GoIterLemmas) bound the difference: same returned value, same iterator up to `cur`
+          of an iterator that is at its end (`t = TagEnd`).
+  * `model_differs` — a concrete, API-reachable tape on which the hand model and the code differ (FINDING):
+          when a run of NOP words extends to the end of the view, Go leaves the last NOP's skip count in `i.cur`
+          (the loop overwrites `i.cur`, `i.t` on every iteration) and, in `AdvanceIter`, `i.off = len(tape)`; the hand
+          model's loops thread only the offset and rebuild the result from the *initial* iterator
+          (`cur` unchanged; `AdvanceIter`: `off` = the offset before the NOP words).
   * `go_iter_source_tie` bundles them.
+
+Initial `i.cur` needs no bound (`int(i.cur)` is only evaluated after `i.cur = v & JSONVALUEMASK`); `dst` is arbitrary
+(`*dst = *i` copies the view, as the model's `d.lim = i.lim`).
 
 The proofs run the syntax trees: any edit of these Go functions changes `Generated/GoSrc.lean` and breaks them.
 -/
@@ -1047,5 +1056,99 @@ theorem go_iter_source_tie (pj : PJ) (i dst : Iter) (hl : i.lim ≤ pj.tape.size
   ⟨peekNextTag_sim pj i hl fuel hf, peekNext_sim pj i hl fuel hf, advanceG_sim pj i hl fuel hf,
    advanceIntoG_sim pj i hl fuel hf, advanceIterG_sim pj i dst hl fuel hf, advance_rel_G pj i, advanceInto_rel_G pj i,
    advance_sim pj i hl fuel hf, advanceInto_sim pj i hl fuel hf, advanceIter_sim pj i dst hl fuel hf⟩
+
+/-! ## the hand model is not exactly the code: a witness, and when it is -/
+
+/-- the tape of `"abc"` after `SetNull` on the string (`root, null, NOP|1, root`), and the view `Root()` returns -/
+def witnessPJ : PJ := { tape := #[mkWord 114 4, mkWord 110 0, mkWord 78 1, mkWord 114 0], strings := #[], msg := #[] }
+/-- the iterator `Root()` returns: standing on the `null`, the NOP word is the last word of its view -/
+def witnessI : Iter := { lim := 3, off := 2, addNext := 0, cur := 0, t := 110 }
+
+theorem w2 : witnessPJ.tape[2]? = some (mkWord 78 1) := rfl
+theorem wtag : tagOf (mkWord 78 1) = tagNop := by decide
+theorem wpay : payloadOf (mkWord 78 1) = 1 := by decide
+
+theorem witness_go : advanceG witnessPJ witnessI = .ok ({ lim := 3, off := 3, addNext := 0, cur := 1, t := 0 }, 0) := by
+  unfold advanceG
+  simp [Iter.bump, witnessI]
+  rw [advanceLoopG]
+  simp [Iter.rdT, rd, w2, wtag, wpay]
+  rw [advanceLoopG]
+  simp [tagEnd, typeNone]
+
+theorem witness_model : witnessI.advance witnessPJ = .ok ({ lim := 3, off := 3, addNext := 0, cur := 0, t := 0 }, 0) := by
+  unfold Iter.advance
+  simp [Iter.bump, witnessI]
+  rw [Iter.advanceLoop]
+  simp [Iter.rdT, rd, w2, wtag, wpay]
+  rw [Iter.advanceLoop]
+  simp [tagEnd, typeNone]
+
+theorem witness_iter_go (dst : Iter) :
+    advanceIterG witnessPJ witnessI dst = .ok ({ lim := 3, off := 3, addNext := 0, cur := 1, t := 0 }, dst, 0) := by
+  unfold advanceIterG
+  simp [Iter.bump, witnessI]
+  rw [advanceIterLoopG]
+  simp [Iter.rdT, rd, w2, wtag, wpay]
+  rw [advanceIterLoopG]
+  simp [tagEnd, typeNone]
+
+theorem witness_iter_model (dst : Iter) :
+    witnessI.advanceIter witnessPJ dst = .ok ({ lim := 3, off := 2, addNext := 0, cur := 0, t := 0 }, dst, 0) := by
+  unfold Iter.advanceIter
+  simp [Iter.bump, witnessI]
+  rw [Iter.advanceIterLoop]
+  simp [Iter.rdT, rd, w2, wtag, wpay]
+  rw [Iter.advanceIterLoop]
+  simp [tagEnd, typeNone]
+
+/-- the hand model is not the code: on the witness the payload register (`Advance`) resp. payload and offset
+    (`AdvanceIter`) differ -/
+theorem model_differs (dst : Iter) :
+    witnessI.advance witnessPJ ≠ advanceG witnessPJ witnessI ∧
+    witnessI.advanceIter witnessPJ dst ≠ advanceIterG witnessPJ witnessI dst := by
+  rw [witness_go, witness_model, witness_iter_go, witness_iter_model]
+  constructor <;> simp
+
+/-- sufficient for `DeadCurAgrees`: the word under the cursor is not a NOP word with a non-zero skip -/
+theorem deadCurAgrees_advance_of_noSkip (pj : PJ) (i : Iter)
+    (h : ∀ o v, i.bump = .ok o → o < i.lim → pj.tape[o]? = some v → tagOf v = tagNop → payloadOf v = 0) :
+    DeadCurAgrees advanceLoopG pj i := by
+  intro o a hb hg
+  rw [advanceLoopG] at hg
+  by_cases hge : o ≥ i.lim
+  · simp only [hge, dif_pos, Res.ok.injEq, Prod.mk.injEq, and_true] at hg
+    right; rw [← hg]
+  · simp only [hge, dif_neg, not_false_eq_true, Iter.rdT, rd] at hg
+    cases hr : pj.tape[o]? with
+    | none => simp [hr, Res.bind] at hg
+    | some v =>
+      simp only [hr, Res.bind_ok] at hg
+      by_cases hn : tagOf v = tagNop
+      · have hz := h o v hb (by omega) hr hn
+        simp [hn, hz, Iter.moveToEnd] at hg
+        left; rw [← hg]
+      · have hbq : (tagOf v == tagNop) = false := by simp [hn]
+        simp [hbq] at hg
+
+theorem deadCurAgrees_advanceInto_of_noSkip (pj : PJ) (i : Iter)
+    (h : ∀ o v, i.bump = .ok o → o < i.lim → pj.tape[o]? = some v → tagOf v = tagNop → payloadOf v = 0) :
+    DeadCurAgrees advanceIntoLoopG pj i := by
+  intro o a hb hg
+  rw [advanceIntoLoopG] at hg
+  by_cases hge : o ≥ i.lim
+  · simp only [hge, dif_pos, Res.ok.injEq, Prod.mk.injEq, and_true] at hg
+    right; rw [← hg]
+  · simp only [hge, dif_neg, not_false_eq_true, Iter.rdT, rd] at hg
+    cases hr : pj.tape[o]? with
+    | none => simp [hr, Res.bind] at hg
+    | some v =>
+      simp only [hr, Res.bind_ok] at hg
+      by_cases hn : tagOf v = tagNop
+      · have hz := h o v hb (by omega) hr hn
+        simp [hn, hz, Iter.moveToEnd] at hg
+        left; rw [← hg]
+      · have hbq : (tagOf v == tagNop) = false := by simp [hn]
+        simp [hbq] at hg
 
 end SJ.GoIter
